@@ -195,4 +195,21 @@ theorem makeIdent_shape (pre : String) (f : FieldE) :
   unfold FieldE.makeIdent
   cases f.field.name <;> rfl
 
+/-! ### R6 — a `key` template that misuses `$` is answered by the expander itself -/
+
+/-- a recognised comparison attribute whose `key` template uses `$` where only a name can stand makes the parsing of
+the helper attributes fail (an error of derive_ex's own), on whatever target it stands and whatever else is there -/
+theorem bad_key_refused (attrs : List Attr) (t : Target) (k : Kinds) (w : CmpAttr) (a : CmpArgs)
+    (hk : k.matchCmp w = true) (hb : cmpBodies attrs w = [.list a]) (hbad : a.keyBad = true) :
+    ∃ e, HAttrs.fromAttrs attrs t k = .error e := by
+  have hc : cmpPart attrs k w = .error () := by
+    simp [cmpPart, hk, CmpH.fromAttrs, hb, parseSingle, CmpArgs.check, hbad, bail, bind, Except.bind]
+  have hcs : CmpHs.fromAttrs attrs k = .error () := by
+    unfold CmpHs.fromAttrs
+    cases w <;> simp only [hc, bind, Except.bind] <;> (repeat' split) <;> rfl
+  unfold HAttrs.fromAttrs
+  simp only [hcs, bind, Except.bind]
+  repeat' split
+  all_goals exact ⟨_, rfl⟩
+
 end DX
